@@ -21,9 +21,13 @@ pub fn gen(tier: &str, r: &mut Rng) -> Vec<String> {
         }
     }
     // sequentially numbered structures beyond the serial-number columns
+    // (atoms, atoms per residue): one wrap of the atom serial column, two wraps of the residue number column,
+    // and in the thorough tier two wraps of the atom serial column
     for k in 0..budget(tier, 1, 2) {
-        out.push(format!("c03 big {}", 100_500 + 11 * k));
+        out.push(format!("c03 big {} 9", 100_500 + 11 * k));
+        out.push(format!("c03 big {} 1", 20_010 + 7 * k));
     }
+    if tier == "thorough" { out.push("c03 big 200010 7".to_string()); }
     out
 }
 
@@ -92,10 +96,11 @@ pub fn exec(case: &str) -> Exec {
     ex.tags.push(format!("kind:{kind}"));
     if kind == "big" {
         let n = t.usize().unwrap();
+        let per = t.usize().unwrap_or(9).max(1);
         ex.req = "-".into(); ex.resp = "-".into();
         let res = guarded(|| {
             let mut m = Model::new(0);
-            for i in 0..n { m.add_atom(Atom::new(false, i + 1, i.to_string(), "CA", (i % 1000) as f64, 0.0, 0.0, 1.0, 0.0, "C", 0).unwrap(), "A", ((i / 9 + 1) as isize, None), ("GLY", None)); }
+            for i in 0..n { m.add_atom(Atom::new(false, i + 1, i.to_string(), "CA", (i % 1000) as f64, 0.0, 0.0, 1.0, 0.0, "C", 0).unwrap(), "A", ((i / per + 1) as isize, None), ("GLY", None)); }
             let mut pdb = PDB::new(); pdb.add_model(m);
             let mut buf = Vec::new();
             save_pdb_raw(&pdb, BufWriter::new(&mut buf), StrictnessLevel::Loose);
